@@ -749,8 +749,9 @@ func (c *Context) Cbrt(d, x *Decimal) (Condition, error) {
 	cube.Negative = false
 	cmp := cube.Cmp(&ax)
 	if cmp == 0 {
-		// Result is exact
-		return 0, nil
+		// Result is exact: of the conditions of rounding the approximation
+		// only Subnormal describes the result.
+		return c.goError(res & Subnormal)
 	}
 	z.Set(d)
 	z.Coeff.Mul(&z.Coeff, tableExp10(2, nil))
